@@ -195,6 +195,7 @@ RULES = [
     ("C07-R6", "an aggregate ranges over the readable data: empty cells of unreadable entries take no part in MIN / MAX [shared with C07]", lambda ctx: __import__("c07").r6(ctx)),
     ("X-PIPELINE", "the per-entry pipeline of check_file evaluated on its scenario table (filter, count, row, buffer key, separator, closed output) [shared]", lambda ctx: __import__("cfile").pipeline(ctx)),
     ("C01-R8", "every search root is walked: a failing root is not skipped before the walker counts it [shared with C01]", lambda ctx: __import__("c01").r8(ctx)),
+    ("C19-R1", "archive member loop: every member is visited, a member that cannot be opened is skipped alone [shared with C19]", lambda ctx: __import__("c19").r1(ctx)),
 ]
 
 EXPLANATION = (
